@@ -961,61 +961,93 @@ def standin_chained_lets(tier, seed):
 # ------------------------------------------------------------------ family 7: several values of a recursive named constraint inside ONE let
 # "A named constraint behaves exactly like the same constraint written inline" + "builds iff the bound value conforms": when the value of one
 # constrained let contains SEVERAL sub-values that must conform to the same recursive constraint (siblings in tuple fields, in one list, in
-# nested lists, cousins at depth 1..3), every one of them is checked on its own - the verdict for one node says nothing about a node with
-# other fields or other field types, whatever the order in which they appear.  Oracle = the exemplar rule of the statement applied
-# recursively with the name replaced by its definition (`rec_admits`); shape (exemplar) constraints only, see KNOWN selfref_shape_only.
-REF = ('ref',)
+# nested lists, cousins at depth 1..3, one let-bound sub-value used twice, two different recursive constraints side by side), every one of
+# them is checked on its own against its own constraint - the verdict for one node says nothing about a node with other fields or other
+# field types, whatever the order in which they appear.  Oracle = the exemplar rule of the statement applied recursively with the name
+# replaced by its definition (`rec_admits`); shape (exemplar) constraints only, see KNOWN selfref_shape_only.
+REF, REF2 = ('ref', 0), ('ref', 1)
+SV = ('sv', None)                     # placeholder inside a value: the let-bound sub-value `sv`
 
 
-def rsrc(e, name):
-    """source of an exemplar that may mention the recursive constraint `name`"""
-    if e == REF:
-        return name
+def rsrc(e, names):
+    """source of an exemplar that may mention the recursive constraints `names`"""
+    if e[0] == 'ref':
+        return names[e[1]]
     if e[0] == 'tuple':
-        return '{' + ', '.join('%s = %s' % (n, rsrc(x, name)) for n, x in e[1]) + '}'
+        return '{' + ', '.join('%s = %s' % (n, rsrc(x, names)) for n, x in e[1]) + '}'
     if e[0] == 'list':
-        return '[' + ', '.join(rsrc(x, name) for x in e[1]) + ']'
+        return '[' + ', '.join(rsrc(x, names) for x in e[1]) + ']'
     return vsrc(e)
 
 
-def rec_admits(e, v, arms, reading='some'):
-    """exemplar e (REF = the named constraint = one of `arms`, as documented: `"" | {...}` is "a string or such a tuple") admits value v.
-    Lists: every element type of one side is admitted by the other side.  For a REF with several arms "the other side admits the element
-    type REF" can be read as 'some' arm is matched by an element or as 'every' arm is; callers keep only cases where both readings agree."""
-    if e == REF:
-        return any(rec_admits(a, v, arms, reading) for a in arms)
+def sv_src(v):
+    if v == SV:
+        return 'sv'
+    if v[0] == 'tuple':
+        return '{' + ', '.join('%s = %s' % (n, sv_src(x)) for n, x in v[1]) + '}'
+    if v[0] == 'list':
+        return '[' + ', '.join(sv_src(x) for x in v[1]) + ']'
+    return vsrc(v)
+
+
+def sv_subst(v, shared):
+    if v == SV:
+        return shared
+    if v[0] == 'tuple':
+        return T(*[(n, sv_subst(x, shared)) for n, x in v[1]])
+    if v[0] == 'list':
+        return L(*[sv_subst(x, shared) for x in v[1]])
+    return v
+
+
+def rec_admits(e, v, armsets, reading='some'):
+    """exemplar e (a ref = the named constraint = one of its arms, as documented: `"" | {...}` is "a string or such a tuple") admits value v.
+    Lists: every element type of one side is admitted by the other side.  For a ref with several arms "the other side admits the element
+    type" can be read as 'some' arm is matched by an element or as 'every' arm is; callers keep only cases where both readings agree."""
+    if e[0] == 'ref':
+        return any(rec_admits(a, v, armsets, reading) for a in armsets[e[1]])
     if e[0] != v[0]:
         return False
     if e[0] == 'tuple':
         fe, fv = dict(e[1]), dict(v[1])
         if not (set(fe) <= set(fv) or set(fv) <= set(fe)):
             return False
-        return all(rec_admits(fe[n], fv[n], arms, reading) for n in set(fe) & set(fv))
+        return all(rec_admits(fe[n], fv[n], armsets, reading) for n in set(fe) & set(fv))
     if e[0] == 'list':
         def side_e(x):
-            if x == REF and reading == 'every':
-                return all(any(rec_admits(a, y, arms, reading) for y in v[1]) for a in arms)
-            return any(rec_admits(x, y, arms, reading) for y in v[1])
-        return all(side_e(x) for x in e[1]) or all(any(rec_admits(x, y, arms, reading) for x in e[1]) for y in v[1])
+            if x[0] == 'ref' and reading == 'every':
+                return all(any(rec_admits(a, y, armsets, reading) for y in v[1]) for a in armsets[x[1]])
+            return any(rec_admits(x, y, armsets, reading) for y in v[1])
+        return all(side_e(x) for x in e[1]) or all(any(rec_admits(x, y, armsets, reading) for x in e[1]) for y in v[1])
     return True
 
 
 class RecSpec:
-    """constraint <name> = <arms joined by |>; the last arm is the tuple {plain fields..., recursive fields...}"""
-    def __init__(self, sid, name, arms):
+    """constraint <name> = <arms joined by |>; the last arm is the tuple {plain fields..., recursive fields...}; `twin` = a second recursive
+    constraint <name>2 that differs in the type of the first plain field"""
+    def __init__(self, sid, name, arms, twin=True):
         self.id, self.name, self.arms = sid, name, arms
+        me = arms[-1][1][-1][1]
+        self.me = me[1][0] if me[0] == 'list' else me
         body = arms[-1][1]
-        self.plain = [(n, x) for n, x in body if x != REF and x != L(REF)]
-        self.recs = [(n, x) for n, x in body if x == REF or x == L(REF)]
+        isrec = lambda x: x == self.me or x == L(self.me)
+        self.plain = [(n, x) for n, x in body if not isrec(x)]
+        self.recs = [(n, x) for n, x in body if isrec(x)]
         self.base = S('end') if len(arms) > 1 else None
-        self.decl = 'constraint %s = %s;' % (name, ' | '.join(rsrc(a, name) for a in arms))
-        self.max_children = len(self.recs) if self.recs[0][1] == REF else 9
+        self.max_children = len(self.recs) if self.recs[0][1] == self.me else 9
+        if twin:
+            n0, x0 = self.plain[0]
+            to2 = lambda x: REF2 if x == REF else L(REF2) if x == L(REF) else x
+            self.twin = RecSpec(sid + '2', name + '2', arms[:-1] + [T(*[(n, OTHER[x0[0]] if n == n0 else to2(x)) for n, x in body])], False)
+            self.names = [name, name + '2']
+            self.armsets = [arms, self.twin.arms]
+            self.decls = ['constraint %s = %s;' % (nm, ' | '.join(rsrc(a, self.names) for a in ar)) for nm, ar in zip(self.names, self.armsets)]
 
     def rec_fields(self, ch):
         out = []
         for i, (n, x) in enumerate(self.recs):
             mine = ch[i::len(self.recs)]
-            out.append((n, L(*mine) if x == L(REF) else (mine[0] if mine else self.base)))
+            out.append((n, L(*mine) if x[0] == 'list' else (mine[0] if mine else self.base)))
         return out
 
     def node(self, variant, ch=()):
@@ -1038,7 +1070,7 @@ class RecSpec:
             'more_retype': lambda: T(*(wrong(0) + rec + zz)),
             'neither': lambda: T(*(rec + zz)),
             'rec_not_list': lambda: T(*(plain + [(n, I(1)) for n, _ in self.recs])),
-            'rec_wrong_elem': lambda: T(*(plain + [(n, L(I(1)) if x == L(REF) else B(True)) for n, x in self.recs])),
+            'rec_wrong_elem': lambda: T(*(plain + [(n, L(I(1)) if x[0] == 'list' else B(True)) for n, x in self.recs])),
             'scalar': lambda: I(42),
             'a_list': lambda: L(),
             'text': lambda: S('text'),
@@ -1052,17 +1084,20 @@ REC_SPECS = [
     RecSpec('xml', 'xn', [S(''), T(('name', S('')), ('attrs', T()), ('children', L(REF)))]),          # the documented one
     RecSpec('chain', 'ch', [S(''), T(('val', I(0)), ('next', REF))]),                                 # documented position: one arm of an alternation
 ]
-REC_VARIANTS = ['full', 'min', 'more', 'retype', 'min_retype', 'neither', 'text',                        # [:7] = the quick core
+REC_VARIANTS = ['full', 'min', 'more', 'retype', 'min_retype', 'neither', 'text',                        # [:5] = the quick core, [:7] the thorough one
                 'plain_only', 'empty', 'reordered', 'retype_last', 'more_retype', 'rec_not_list', 'rec_wrong_elem', 'scalar', 'a_list']
 REC_CORE = 7
 
 
 def rec_structures(sp, A, B_):
-    """where two nodes A, B (functions: children -> value) sit inside the value of ONE let: name -> (constraint exemplar, value)"""
+    """where two nodes A, B (functions: children -> value) sit inside the value of ONE let: name -> (constraint exemplar, value[, the
+    let-bound sub-value `sv` the value mentions])"""
     W = lambda *ch: sp.node('full', ch)
     Wm = lambda *ch: sp.node('min', ch)
+    W2 = lambda *ch: sp.twin.node('full', ch)
     a, b = A(), B_()
     pair = T(('l', REF), ('r', REF))
+    pair2 = T(('l', REF), ('r', REF2))
     st = {
         'fields': (pair, T(('l', a), ('r', b))),
         'fields_depth1': (pair, T(('l', W(a)), ('r', W(b)))),
@@ -1081,6 +1116,15 @@ def rec_structures(sp, A, B_):
         'lists_in_tuple_in_list': (L(T(('g', L(REF)))), L(T(('g', L(a))), T(('g', L(b))))),
         'root_depth1': (REF, W(a)),
         'root_depth3': (REF, W(Wm(W(b)))),
+        # one let-bound sub-value in two places; two recursive constraints (differing in one field type) side by side
+        'shared_twice': (pair, T(('l', W(SV)), ('r', Wm(b))), a),
+        'shared_and_other': (T(('l', REF), ('m', REF), ('r', REF)), T(('l', SV), ('m', W(b)), ('r', W(SV))), a),
+        'two_names': (pair2, T(('l', a), ('r', b))),
+        'two_names_depth1': (pair2, T(('l', W(a)), ('r', W2(b)))),
+        'two_names_swapped': (T(('r', REF2), ('l', REF)), T(('r', W2(a)), ('l', W(b)))),
+        'two_names_shared': (pair2, T(('l', SV), ('r', SV)), a),
+        'two_names_shared_depth1': (T(('l', REF), ('m', REF2), ('r', REF)), T(('l', W(SV)), ('m', W2(SV)), ('r', W(b))), a),
+        'two_names_lists': (T(('p', L(REF)), ('q', L(REF2))), T(('p', L(Wm(a))), ('q', L(Wm(b))))),
     }
     if sp.max_children >= 2:
         st.update({
@@ -1091,65 +1135,71 @@ def rec_structures(sp, A, B_):
             'cousins_depth3': (REF, W(W(W(a)), Wm(Wm(b)))),
             'fields_of_siblings': (pair, T(('l', W(a, b)), ('r', Wm(b, a)))),
             'three_siblings': (pair, T(('l', W(a, b, a)), ('r', W(b, b, a)))),
+            'shared_siblings': (REF, W(W(SV, SV), W(b, SV)), a),
         })
     return st
 
 
-REC_DECISIVE = ['fields', 'fields_depth1', 'fields_depth1_2', 'list_fields', 'siblings', 'cousins']
+REC_DECISIVE = ['fields_depth1', 'fields_depth1_2', 'list_fields', 'cousins', 'one_list', 'two_names_shared_depth1', 'two_names_depth1']
 
 
 def standin_recursive_siblings(tier, seed):
     rnd = random.Random(seed)
     thorough = tier == 'thorough'
     b = Batch()
-    ambiguous = 0
+    ambiguous = [0]
+    dummy = lambda ch=(): I(1)
+    names_of = dict((sp.id, sorted(rec_structures(sp, dummy, dummy))) for sp in REC_SPECS)
 
     def one(sp, sname, va, vb):
-        nonlocal ambiguous
-        c, v = rec_structures(sp, lambda ch=(): sp.node(va, ch), lambda ch=(): sp.node(vb, ch))[sname]
-        ok = rec_admits(c, v, sp.arms, 'some')
-        if ok != rec_admits(c, v, sp.arms, 'every'):
-            ambiguous += 1
+        st = rec_structures(sp, lambda ch=(): sp.node(va, ch), lambda ch=(): sp.node(vb, ch))[sname]
+        c, v, shared = st if len(st) == 3 else st + (None,)
+        actual = sv_subst(v, shared)
+        ok = rec_admits(c, actual, sp.armsets, 'some')
+        if ok != rec_admits(c, actual, sp.armsets, 'every'):
+            ambiguous[0] += 1
             return
-        pre, ctext, vtext = [sp.decl], rsrc(c, sp.name), vsrc(v)
+        uses2 = 'two_names' in sname
+        pre, ctext, vtext = sp.decls[:2 if uses2 else 1], rsrc(c, sp.names), sv_src(v)
+        if shared is not None:
+            pre = pre + ['let sv = %s;' % vsrc(shared)]
         spell = rnd.randrange(4)
-        if spell == 1 and c != REF:
-            pre.append('constraint outer = %s;' % ctext)
+        if spell == 1 and c[0] != 'ref':
+            pre = pre + ['constraint outer = %s;' % ctext]
             ctext = 'outer'
         elif spell == 2:
-            pre.append('let vv = %s;' % vtext)
+            pre = pre + ['let vv = %s;' % vtext]
             vtext = 'vv'
-        b.add_program('\n'.join(pre + ['let x :: %s = %s;' % (ctext, vtext)]), ok, 'recursive `%s`, structure %s, nodes %s then %s' % (sp.id, sname, va, vb))
+        b.add_program('\n'.join(pre + ['let x :: %s = %s;' % (ctext, vtext)]), ok, 'recursive `%s`, placement %s, nodes %s and %s' % (sp.id, sname, va, vb))
 
-    names = sorted(rec_structures(REC_SPECS[0], lambda ch=(): I(1), lambda ch=(): I(1)))
+    core = REC_VARIANTS[:REC_CORE]
     if thorough:
         for sp in REC_SPECS:
-            for sname in names:
-                for va in REC_VARIANTS:
-                    for vb in REC_VARIANTS:
-                        if sname in rec_structures(sp, lambda ch=(): I(1), lambda ch=(): I(1)):
-                            one(sp, sname, va, vb)
-    else:
-        core = REC_VARIANTS[:REC_CORE]
-        for sp in REC_SPECS[:1]:
-            for sname in REC_DECISIVE:
-                for va in core:
-                    for vb in core:
+            for sname in names_of[sp.id]:
+                full = sp.id in ('kids', 'xml') and sname in REC_DECISIVE
+                for va in (REC_VARIANTS if full else core):
+                    for vb in (REC_VARIANTS if full else core):
                         one(sp, sname, va, vb)
-        for _ in range(330):
-            sp = rnd.choice(REC_SPECS)
-            sname = rnd.choice(sorted(rec_structures(sp, lambda ch=(): I(1), lambda ch=(): I(1))))
-            va, vb = (rnd.choice(core), rnd.choice(core)) if rnd.random() < 0.5 else (rnd.choice(REC_VARIANTS), rnd.choice(REC_VARIANTS))
-            one(sp, sname, va, vb)
-    r = b.run('recursive_siblings',
-              '%d recursive named exemplar constraints (`{name, kids = [node]}`, a binary tree with two recursive list fields, the documented `"" | {name, attrs, children = [xn]}`, a linked '
-              'list `"" | {val, next = ch}`) x %d placements of TWO nodes inside the value of one constrained let (two / three tuple fields of an outer exemplar, at depth 0..3 under '
-              'conforming parents with all / few fields, list fields, one list, nested lists, siblings and cousins under one root, with children of their own) x %s ordered pairs of %d node '
-              'variants (all fields, only the recursive fields, an extra field, reordered, only plain fields, empty; a plain field of a wrong type with all / few / extra fields, neither '
-              'field set contained, the recursive field not a list / with a wrong element, a scalar, a list, a string); constraint inline or behind a second name, value literal or let-bound; '
-              'expected: the statement\'s exemplar rule applied recursively with the name replaced by its definition [%d placements left out: the list rule is ambiguous for an alternation]'
-              % (len(REC_SPECS), len(names), 'all' if thorough else 'all of the first 7 variants for `kids` in 6 placements + 330 seeded', len(REC_VARIANTS), ambiguous))
-    return r
+    else:
+        for sname in REC_DECISIVE:
+            for va in core[:5]:
+                for vb in core[:5]:
+                    one(REC_SPECS[0], sname, va, vb)
+    for _ in range(1500 if thorough else 120):
+        sp = rnd.choice(REC_SPECS)
+        va, vb = (rnd.choice(core), rnd.choice(core)) if rnd.random() < 0.4 else (rnd.choice(REC_VARIANTS), rnd.choice(REC_VARIANTS))
+        one(sp, rnd.choice(names_of[sp.id]), va, vb)
+    return b.run('recursive_siblings',
+                 '%d recursive named exemplar constraints (`{name, kids = [node]}`, a binary tree with two recursive list fields, the documented `"" | {name, attrs, children = [xn]}`, a linked '
+                 'list `"" | {val, next = ch}`; each with a twin that differs in one field type) x %d placements of TWO nodes inside the value of one constrained let (two / three tuple fields of '
+                 'an outer exemplar, at depth 0..3 under conforming parents with all / few fields, list fields, one list, nested lists, siblings and cousins under one root, with children of '
+                 'their own, one let-bound node used in two places, the two twin constraints side by side) x %s ordered pairs of %d node variants (all fields, only the recursive fields, an '
+                 'extra field, reordered, only plain fields, empty; a plain field of a wrong type with all / few / extra fields, neither field set contained, the recursive field not a list / '
+                 'with a wrong element, a scalar, a list, a string); constraint inline or behind a second name, value literal or let-bound; expected: the statement\'s exemplar rule applied '
+                 'recursively with the name replaced by its definition [%d placements left out: the list rule is ambiguous for an alternation]'
+                 % (len(REC_SPECS), max(len(v) for v in names_of.values()),
+                    'all of the first 7 variants everywhere, all 16 x 16 in 7 placements for 2 constraints, 1500 seeded' if thorough else 'all of the first 5 variants for `kids` in 7 placements + 120 seeded',
+                    len(REC_VARIANTS), ambiguous[0]))
 
 
 # ------------------------------------------------------------------ family 8: nested tuple exemplars, field sets varied independently at every level
@@ -1163,13 +1213,13 @@ QUICK_V = [(None, None, False), ('ok', None, False), ('ok', 'ok', False), ('ok',
 LINKS = ['tuple', 'list', 'list_good_sibling', 'list_bad_sibling', 'list_of_lists', 'value_drops', 'exemplar_lacks']
 
 
-def nest_levels(levels, links, t_first):
+def nest_levels(levels, links, t_first, zval=('bool', True)):
     """levels: [(E fields, (p, q, z) of the value)] outermost first; links[i] joins level i and i + 1 -> (exemplar, value)"""
     (ef, (vp, vq, vz)), rest = levels[0], levels[1:]
     e = [(n, {'p': I(1), 'q': S('s')}[n]) for n in ef]
-    v = ([('p', I(7) if vp == 'ok' else S('w'))] if vp else []) + ([('q', S('t') if vq == 'ok' else I(3))] if vq else []) + ([('z', B(True))] if vz else [])
+    v = ([('p', I(7) if vp == 'ok' else S('w'))] if vp else []) + ([('q', S('t') if vq == 'ok' else I(3))] if vq else []) + ([('z', zval)] if vz else [])
     if rest:
-        ne, nv = nest_levels(rest, links[1:], t_first)
+        ne, nv = nest_levels(rest, links[1:], t_first, zval)
         ln = links[0]
         if ln == 'tuple':
             te, tv = ne, nv
@@ -1197,11 +1247,13 @@ def standin_nested_tuple_levels(tier, seed):
     wrappers = lambda e: [('ex', e), ('named', ('ex', e)), ('letex', e)]
 
     def one(levels, links):
-        e, v = nest_levels(levels, links, rnd.random() < 0.5)
+        e, v = nest_levels(levels, links, rnd.random() < 0.5, rnd.choice([B(True), B(True), T(), L(), T(('k', S('v'))), I(1)]))
         b.add(rnd.choice(wrappers(e)) if rnd.random() < 0.4 else ('ex', e), v, 'literal' if rnd.random() < 0.8 else rnd.choice(['let', 'field', 'paren', 'constfunc', 'copy']))
 
     lv_q = [(e, v) for e in QUICK_E for v in QUICK_V]
     lv_all = [(e, v) for e in LEVEL_E for v in LEVEL_V]
+    # per level: the value has fewer / the same / more fields, a shared field of another type, incomparable field sets
+    rel5 = [(('p', 'q'), v) for v in [(None, None, False), ('ok', 'ok', False), ('ok', 'ok', True), ('bad', None, False), ('ok', None, True)]]
     if thorough:
         for l0 in lv_all:
             for l1 in lv_all:
@@ -1217,19 +1269,28 @@ def standin_nested_tuple_levels(tier, seed):
         for l0 in lv_q:
             for l1 in lv_q:
                 one([l0, l1], ['tuple'])
-                one([l0, l1], ['list'])
-        nrand = 350
+        for l0 in rel5[:3]:
+            for l1 in lv_q:
+                for ln in LINKS[1:4]:
+                    one([l0, l1], [ln])
+        nrand = 100
+    if True:
+        for l0 in rel5:
+            for l1 in rel5:
+                for l2 in rel5:
+                    one([l0, l1, l2], ['tuple', 'tuple'])
     for _ in range(nrand):
         d = rnd.choice([2, 3, 3])
         pool = lv_q if rnd.random() < 0.5 else lv_all
         one([rnd.choice(pool) for _ in range(d)], [rnd.choice(LINKS[:2] if rnd.random() < 0.5 else LINKS) for _ in range(d - 1)])
     return b.run('nested_tuple_levels',
                  'tuple exemplars nested 2..3 deep whose levels are varied INDEPENDENTLY: per level the exemplar has the fields {} / {p} / {q} / {p, q} (+ the nested field t) and the value has '
-                 'each of p, q absent / of the same type / of another type and an extra field z or not (18 x 4 per level; empty tuples included), the levels joined by a tuple field, a list, a '
-                 'list with a conforming / a non-conforming sibling, a list of lists, or t missing on one side: %s; exemplar inline / named / let-bound, value literal or computed'
+                 'each of p, q absent / of the same type / of another type and an extra field z (bool, int, tuple, list) or not (18 x 4 per level; empty tuples included), the levels joined by a '
+                 'tuple field, a list, a list with a conforming / a non-conforming sibling, a list of lists, or t missing on one side: %s; all 5^3 three-level chains whose levels each have fewer / '
+                 'the same / more fields than the exemplar, a shared field of another type, or incomparable field sets; exemplar inline / named / let-bound, value literal or computed'
                  % ('all 72 x 72 two-level pairs joined by a tuple, all 14 x 14 pairs of a reduced alphabet for the 6 other joins, all 14^3 three-level chains of it, 3000 seeded chains of depth 2..3'
-                    if thorough else 'all 14 x 14 two-level pairs of a reduced alphabet (exemplar {} / {p, q}; value {}, {p}, {p, q}, {p, q, z}, {p, z}, {p wrong}, {p wrong, q, z}) joined by a tuple '
-                    'and by a list, 350 seeded chains of depth 2..3 over the full alphabet and all joins'))
+                    if thorough else 'all 14 x 14 two-level pairs of a reduced alphabet (exemplar {} / {p, q}; value {}, {p}, {p, q}, {p, q, z}, {p, z}, {p wrong}, {p wrong, q, z}) joined by a tuple, '
+                    '3 x 14 pairs for each of the 3 list joins, 100 seeded chains of depth 2..3 over the full alphabet and all joins'))
 
 
 STANDINS = [standin_exemplar_shapes, standin_range_bounds, standin_alternations, standin_recursive_documented, standin_named_reach, standin_chained_lets,
